@@ -27,7 +27,7 @@
    attributed and is skipped on the "before" side (that would be a read defect, C01). *)
 From Coq Require Import ZArith List Bool.
 From Synnax Require Import Common.Base Cesium.Store Cesium.IndexSearch Cesium.Distance
-  Cesium.Stamp Cesium.DeleteModel Cesium.GCModel Cesium.DeleteCheck.
+  Cesium.Stamp Cesium.DeleteModel Cesium.GCModel Cesium.DeleteCheck Cesium.ReadDB.
 Import ListNotations.
 Local Open Scope Z_scope.
 
@@ -95,8 +95,9 @@ Definition case_model_old (c : case_t) : list oobs :=
   let '(cap, thr, chs, ranges, steps) := c in
   model_trace false (mk_gcfg cap thr) ranges (init_db chs) (map fst steps).
 
-(* every state the model goes through satisfies the invariant under which the theorems of
-   Properties/C04.v are proved (DeleteCheck.db_okb, sound by db_okb_ok) *)
+(* every state the model goes through satisfies the invariant and the index coverage under
+   which the theorems of Properties/C04.v are proved (DeleteCheck.db_okb, ReadDB.db_covb, both
+   sound by proof) *)
 Fixpoint model_states (fx : bool) (g : gcfg) (d : db) (ops : list op) : list db :=
   match ops with
   | [] => []
@@ -104,7 +105,7 @@ Fixpoint model_states (fx : bool) (g : gcfg) (d : db) (ops : list op) : list db 
   end.
 Definition inv_holds (c : case_t) : bool :=
   let '(cap, thr, chs, ranges, steps) := c in
-  forallb db_okb (model_states repo_fx (mk_gcfg cap thr) (init_db chs) (map fst steps)).
+  forallb (fun d => db_okb d && db_covb d) (model_states repo_fx (mk_gcfg cap thr) (init_db chs) (map fst steps)).
 
 Definition mismatch_obs (c : case_t) : bool :=
   let '(cap, thr, chs, ranges, steps) := c in
